@@ -49,7 +49,7 @@ def add_constructor_contracts(world, marshal_assumed=True):
     # DBusMessage._marshal: what the constructors rely on.  In C18 only the object-path clause is
     # used: the header field 'path' is encoded as an ObjectPath, whose marshaller validates it.
     contract(world, 'txdbus.message.DBusMessage._marshal',
-             {'self': Ref('DBusMessage'), 'newSerial': BOOL, 'oobFDs': OPAQUE},
+             {'self': Ref('DBusMessage'), 'newSerial': BOOL, 'oobFDs': OPAQUE, 'rawBody': OPAQUE},
              modifies=lambda cx: [(cx.args['self'], 'DBusMessage.' + f) for f in
                                   ('headers', 'bodyLength', 'serial', 'rawHeader', 'rawPadding', 'rawBody',
                                    'rawMessage', 'unix_fds', 'unix_fds?set')],
